@@ -672,7 +672,7 @@ static void run_one(const desc_t *d, scn_t *s) {
     arena_snapshot();
     probes_reset();
     C.ret = -999; C.retp = NULL;
-    g_shm->in_call = 1;
+    g_shm->in_call = 1; g_cur_fn = d->name;
     FENCED(d->call(&C));
     g_shm->in_call = 0;
     memcpy(K_before, K, sizeof K);
@@ -947,7 +947,7 @@ static void run_overlap_case(const desc_t *d, const ovl_t *o, long idx) {
     size_t cmp_b = is_str ? (dl + k + 1) * ew : (d->fam == FAM_FLD || d->fam == FAM_FLDIN || d->fam == FAM_FLDOUT) ? dm * ew : k * ew;
 
     arena_snapshot(); probes_reset(); C.ret = -999; C.retp = NULL;
-    g_shm->in_call = 1; FENCED(d->call(&C)); g_shm->in_call = 0;
+    g_shm->in_call = 1; g_cur_fn = d->name; FENCED(d->call(&C)); g_shm->in_call = 0;
     K[K_CALLS]++; K[K_C07]++;
     char key[300], what[500], obs[220];
     {   char b[200]; snprintf(b, sizeof b, "%s;ovl;%s;dm=%s;fits=%d;bos=%d;%s>%s", d->name, zone, szcls(dm), fits, o->bos, o->delta < 0 ? "src-below" : o->delta == 0 ? "same" : "src-above", g_fence.faulted ? "fault" : errname(C.ret));
@@ -1034,6 +1034,7 @@ static void body(void *arg, long lo, long hi) {
     g_skip_below = lo;
     if (g_mode == 1) gen_overlap(fi); else gen_main(fi, visit);
     for (int i = 0; i < K_NUM; i++) __sync_fetch_and_add(&CTR(i), K[i]);
+    __sync_fetch_and_add(&CTR(60), g_fp_checks);
     distinct_emit();
 }
 
@@ -1069,7 +1070,7 @@ int main(int argc, char **argv) {
         else { fprintf(stderr, "unknown arg %s\n", argv[i]); return 2; }
     }
     setlocale(LC_ALL, "C");
-    arena_init(); fence_init(); shm_init(); probes_install();
+    arena_init(); fence_init(); shm_init(); probes_install(); fp_init();
     for (int fi = 0; fi < ND; fi++) {
         if (g_only_fn && strcmp(g_only_fn, D[fi].name)) continue;
         memset(K, 0, sizeof K);
@@ -1077,6 +1078,7 @@ int main(int argc, char **argv) {
     }
     for (int i = 0; i < K_NUM; i++) emit_counter(KN[i], CTR(i));
     emit_counter("functions", g_only_fn ? 1 : ND);
+    emit_counter("footprint_checks", CTR(60));
     fprintf(g_out, "{\"t\":\"end\"}\n");
     fflush(g_out);
     return 0;
